@@ -7,6 +7,7 @@ same-charge-class substitution (kappa/delta/deltaMax/SCD), substitution within
 five), and compositions of these."""
 from .. import gen
 from .. import refmodel as M
+from .. import salt as SALT
 
 ID = "C05"
 LEVEL = "exploration"
@@ -57,8 +58,10 @@ def cases(tier, seed):
         yield {"k": "seq", "s": gen.rand_seq(rng, hi=HI[tier] if i % 4 == 0 else 50), "o": rng.randrange(1 << 30)}
 
 
-def getters(S, seq, want):
+def getters(S, seq, want, salted=None):
     o = S["SP"](seq)
+    if salted is not None:
+        SALT.salt(S, o, seq, salted[0], salted[1], k=1, cheap=len(seq) > 100)
     out = {}
     for g in want:
         if g == "kappa":
@@ -79,7 +82,7 @@ PATT4 = ("kappa", "delta", "deltaMax", "SCD")
 
 
 def compare(rep, S, base, t, name, which, basevals):
-    tv = getters(S, t, which)
+    tv = getters(S, t, which, salted=(gen.sub_rng(0, "salt", t), rep) if (len(t) + len(name)) % 5 == 0 else None)
     rep.cnt("pairs:" + name)
     rep.distinct((base, name, t))
     for g in which:
